@@ -581,7 +581,8 @@ class Fn:
                     for d_ in dsts:
                         E[s_].add(d_)
         setattr(self, key, E)
-        self._call_edges = call_edges
+        if through_calls:
+            self._call_edges = call_edges
         return E
 
     def derive(self, seeds, through_calls=True, stop_calls=()):
@@ -594,7 +595,6 @@ class Fn:
         if stop_calls and through_calls:
             # edges contributed only by stop calls are not followed: recompute without them
             E2 = defaultdict(set)
-            self._flow_edges(False)
             base_e = self._flow_edges(False)
             for k, v in base_e.items():
                 E2[k] |= v
